@@ -382,8 +382,11 @@ class MetaFirewall(type):
     def __new__(cls, name, bases, classdict):
         firewalled = {}
         for base in bases:
-            if hasattr(base, '__firewalled__'):
-                cls.updateFirewalled(firewalled, base.__firewalled__)
+            # Not base.__firewalled__: with multiple inheritance that is only
+            # the first one found in the MRO, the others would be forgotten.
+            for klass in reversed(base.__mro__):
+                cls.updateFirewalled(firewalled,
+                                     klass.__dict__.get('__firewalled__', []))
         cls.updateFirewalled(firewalled, classdict.get('__firewalled__', []))
         for (attr, errorHandler) in firewalled.items():
             if attr in classdict:
